@@ -91,6 +91,10 @@ func guardedRule(c *Ctx, rule string, entries []*ssa.Function, re *Reach) {
 			if e.Fresh {
 				continue
 			}
+			unpublished, publishedAt := publicationBefore(e)
+			if unpublished {
+				continue // the object is still being built: nothing else can see it before it is handed on (rules_ag29.go)
+			}
 			flds := e.fields()
 			if len(flds) == 0 {
 				// write through a non-fresh reference that is not a struct field (e.g. caller's slice): report unless locked exclusively
@@ -126,6 +130,9 @@ func guardedRule(c *Ctx, rule string, entries []*ssa.Function, re *Reach) {
 				}
 				if len(held) == 0 {
 					msg := "write to shared state " + last + " with no lock held, and no object on its access path has a mutex"
+					if publishedAt != nil {
+						msg += "; the object is created in this function, but it has already been handed on at " + c.w.ipos(publishedAt) + " when it is written: complete an object before publishing it"
+					}
 					c.r.bad(rule, key, msg, []string{c.w.ipos(e.Ins)}, re.chain(fn)...)
 					continue
 				}
